@@ -851,6 +851,22 @@ func gweis(v any) []eth2p0.Gwei {
 	return out
 }
 
+// pair names an amount of g Gwei as [e, d] with g = e * 10^9 + d (TLC's integers have 32 bits).
+func pair(g uint64) []int64 {
+	e := (g + gweiE/2) / gweiE
+
+	return []int64{int64(e), int64(g) - int64(e*gweiE)}
+}
+
+func pairs(gs []eth2p0.Gwei) [][]int64 {
+	out := [][]int64{}
+	for _, g := range gs {
+		out = append(out, pair(uint64(g)))
+	}
+
+	return out
+}
+
 // doFn calls one of the pure functions of eth2util/deposit (or reads a written directory back) and records the result.
 func (r *run) doFn(st drv.Step) {
 	ev := drv.Step{"ev": "Fn", "f": drv.Str(st["f"])}
@@ -862,14 +878,14 @@ func (r *run) doFn(st drv.Step) {
 		var pk eth2p0.BLSPubKey
 		copy(pk[:], unhex(r.valHex(v)))
 		msg, err := deposit.NewMessage(pk, addrTable[drv.Str(st["addr"])], eth2p0.Gwei(uint64(g)), comp)
-		ev["v"], ev["addr"], ev["gwei"], ev["comp"], ev["ok"] = v, drv.Str(st["addr"]), uint64(g), comp, err == nil
-		ev["creds"], ev["outgwei"], ev["outv"] = absW(msg.WithdrawalCredentials), uint64(msg.Amount), r.valOf("0x"+hex.EncodeToString(msg.PublicKey[:]))
+		ev["v"], ev["addr"], ev["gwei"], ev["comp"], ev["ok"] = v, drv.Str(st["addr"]), pair(uint64(g)), comp, err == nil
+		ev["creds"], ev["outgwei"], ev["outv"] = absW(msg.WithdrawalCredentials), pair(uint64(msg.Amount)), r.valOf("0x"+hex.EncodeToString(msg.PublicKey[:]))
 	case "verify":
 		a := gweis(st["amts"])
 		if n, ok := st["nil"].(bool); ok && n {
 			a = nil
 		}
-		ev["amts"], ev["comp"], ev["ok"] = a, comp, deposit.VerifyDepositAmounts(a, comp) == nil
+		ev["amts"], ev["comp"], ev["ok"] = pairs(a), comp, deposit.VerifyDepositAmounts(a, comp) == nil
 	case "dedup":
 		a := gweis(st["amts"])
 		in := append([]eth2p0.Gwei{}, a...)
@@ -881,9 +897,9 @@ func (r *run) doFn(st drv.Step) {
 		for i := range in {
 			same = same && in[i] == a[i]
 		}
-		ev["amts"], ev["out"], ev["inputKept"] = in, out, same
+		ev["amts"], ev["out"], ev["inputKept"] = pairs(in), pairs(out), same
 	case "max":
-		ev["comp"], ev["out"] = comp, uint64(deposit.MaxDepositAmount(comp))
+		ev["comp"], ev["out"] = comp, pair(uint64(deposit.MaxDepositAmount(comp)))
 	case "readback":
 		op, d := drv.Num(st["op"]), drv.Num(st["dir"])
 		sets, err := deposit.ReadDepositDataFiles(r.outDir(op, d))
